@@ -138,8 +138,13 @@ def op_facts(I: Interp, events: List[Any]) -> Dict[str, Any]:
                                        f"{e.value.cls.name}({', '.join(k + '=' + I.expr_of(v.fields.get('hex')) if isinstance(v, Obj) else k for k, v in sorted(e.value.fields.items()))})"))
         elif e.kind == "extern_call" and e.name.endswith("subprocess.run"):
             a = e.args[0] if e.args else e.kwargs.get("args")
+            def arg_text(x):
+                # a member of a str-valued enum IS its value when handed to the OS as an argument
+                if isinstance(x, EnumV) and I.bi.type_test(x, "str", "argv element"):
+                    return I.expr_of(I.get_attr(x, "value", None, None))
+                return I.expr_of(x)
             facts["argv"].append(I.expr_of(a) if not isinstance(a, ListV) else
-                                 "[" + ", ".join(I.expr_of(x) for x in (a.items if a.absorbed is None else [a.absorbed])) + "]")
+                                 "[" + ", ".join(arg_text(x) for x in (a.items if a.absorbed is None else [a.absorbed])) + "]")
         elif e.kind == "extern_call" and e.name.startswith("regex."):
             facts["regex"].append((e.name, tuple(sorted((k, I.expr_of(v)) for k, v in e.kwargs.items()))))
         elif e.kind == "construct" and e.cls == "CompleteConsumer":
